@@ -428,6 +428,12 @@ class SliceIter(IterBase):
             return SliceIter(seq_ite(c, self.seq, other.seq), self.pos, self.back)
         return None
 
+    def merge_key(self):
+        return ('slice', self.pos, self.back)
+
+    def shape(self, ex):
+        return ('SliceIter', self.pos, self.back, ex.shape_of(self.seq))
+
     def same_as(self, o):
         return self.pos == o.pos and self.back == o.back and same(self.seq, o.seq)
 
@@ -593,10 +599,21 @@ def it_map(ex, args):
 @intrinsic('Iterator::next')
 def it_next(ex, args):
     r = args[0]
+    at_merge = ex._at_merge_next
+    ex._at_merge_next = False
     if isinstance(r, Ref):
         it = ex.read_ref(r)
         item, ni = iter_next(ex, it)
         ex.write_ref(r, ni)
+        if at_merge and isinstance(item, Enum) and item.payload(1) is not None:
+            # the scanner's loop over tokens: a token that is a choice of alternatives is fixed here (one path per
+            # alternative, merged again at the next token)
+            v = item.payload(1)[0]
+            if isinstance(v, tuple) and len(v) == 2 and isinstance(v[1], Choice):
+                v = (v[0], ex.concretize(v[1]))
+                item = Enum('Option', item.disc, tuple(sorted({**dict(item.payloads), 1: (v,)}.items())))
+            elif isinstance(v, Choice):
+                item = Enum('Option', item.disc, tuple(sorted({**dict(item.payloads), 1: (ex.concretize(v),)}.items())))
         return item
     item, ni = iter_next(ex, r)
     return item
@@ -665,6 +682,8 @@ def it_count(ex, args):
 @intrinsic('Iterator::collect', 'FromIterator::from_iter')
 def it_collect(ex, args):
     it = args[0]
+    if hasattr(it, 'collect_all'):
+        return it.collect_all(ex)
     out = []
     while True:
         item, it = iter_next(ex, it)
